@@ -347,4 +347,150 @@ Proof.
     + apply facts_in_fold; [exact Hf_e|]. intros y _ f v Hfv. unfold dv in Hfv.
       apply st_inter_In in Hfv. exact (Hf_e _ f v (proj1 Hfv)).
 Qed.
+
+Lemma cert_for iv lb ub sp its rs body ys : Wb body -> Ws (SFor iv lb ub sp its rs body ys).
+Proof.
+  intros IHb T c c' V V' H Hty HV HT Hc Hf Hfresh Hnd He.
+  rewrite wf_stmt_for in H. cbv zeta in H.
+  set (sis := state_iters its ys rs) in *. set (ds := iv :: map it_arg its ++ rs) in *.
+  set (kept := filter (fun bs => negb (mem_nat (fst bs) (map si_acc sis))
+                        && negb (mem_nat (fst bs) (block_accs body)) && negb (existsb stmt_has_effects body)) c) in *.
+  set (c_h := map (fun x => (si_acc x, si_arg x)) sis ++ kept) in *.
+  match type of H with (if ?X then _ else _) = _ => remember X as cond eqn:Econd end.
+  destruct cond; [|cbv iota in H; discriminate]. cbv iota in H. symmetry in Econd.
+  destruct (wf_block T0 c_h body) as [c_e|] eqn:Ewb; [|discriminate].
+  match type of H with (if ?X then _ else _) = _ => remember X as cond2 eqn:Econd2 end.
+  destruct cond2; [|cbv iota in H; discriminate]. cbv iota in H. symmetry in Econd2.
+  inversion H; subst c'. clear H.
+  apply andb_true_iff in Econd. destruct Econd as [Econd Hall0]. apply andb_true_iff in Econd. destruct Econd as [_ Hnacc].
+  rewrite forallb_forall in Hall0.
+  pose proof Econd2 as Econd2'. apply andb_true_iff in Econd2'. destruct Econd2' as [Hyl _]. rewrite forallb_forall in Hyl.
+  pose proof Hty as Hty_all. rewrite sty_stmt_for in Hty. apply andb_true_iff in Hty. destruct Hty as [_ Htyb].
+  rewrite scoped_stmt_for in HV. fold ds in HV. destruct (disj ds V) eqn:Edisj; [|discriminate].
+  rewrite stmt_sdefs_for in Hfresh, Hnd. fold sis in Hfresh, Hnd.
+  apply nodup_nat_app in Hnd. destruct Hnd as [Hnd_arg [Hnd2 Hdis1]].
+  apply nodup_nat_app in Hnd2. destruct Hnd2 as [Hnd_body [Hnd_res Hdis2]].
+  rewrite ainfer_stmt_for in He |- *. cbv zeta in He |- *. fold sis in He |- *.
+  set (T1' := ainfer_block body (fold_left (fun T' x => tset (si_arg x) (tlook T (si_init x)) T') sis T)) in *.
+  set (dvh := fun x => st_inter (tlook T (si_init x)) (tlook T1' (si_yield x))) in *.
+  set (T2 := fold_left (fun T' x => tset (si_arg x) (dvh x) T') sis T) in *.
+  set (T2' := ainfer_block body T2) in *.
+  set (dvr := fun x => st_inter (tlook T (si_init x)) (tlook T2' (si_yield x))) in *.
+  (* keys *)
+  assert (Hk2 : forall x, In x (keys T2) <-> In x (map si_arg sis) \/ In x (keys T)) by (intros x; apply keys_fold).
+  assert (Hk2' : forall x, In x (keys T2') <-> In x (block_sdefs body) \/ In x (map si_arg sis) \/ In x (keys T)).
+  { intros x. unfold T2'. rewrite keys_ainfer_block, Hk2. tauto. }
+  assert (Harg_fresh : forall y, In y sis -> ~ In (si_arg y) (keys T)).
+  { intros y Hy. apply Hfresh. apply in_app_iff. left. apply in_map. exact Hy. }
+  assert (Hbody_fresh : forall x, In x (block_sdefs body) -> ~ In x (keys T2)).
+  { intros x Hx Hin. apply Hk2 in Hin. destruct Hin as [Hin|Hin].
+    - apply (Hdis1 _ Hin). apply in_app_iff. left. exact Hx.
+    - apply (Hfresh x); [|exact Hin]. apply in_app_iff. right. apply in_app_iff. left. exact Hx. }
+  assert (Hres_fresh : forall y, In y sis -> ~ In (si_res y) (keys T2')).
+  { intros y Hy Hin. apply Hk2' in Hin.
+    assert (Hr : In (si_res y) (map si_res sis)) by (apply in_map; exact Hy).
+    destruct Hin as [Hin|[Hin|Hin]].
+    - exact (Hdis2 _ Hin Hr).
+    - apply (Hdis1 _ Hin). apply in_app_iff. right. exact Hr.
+    - apply (Hfresh (si_res y)); [|exact Hin]. apply in_app_iff. right. apply in_app_iff. right. exact Hr. }
+  assert (He2' : ext T2') by (apply (ext_fold_before si_res dvr sis T2' He); exact Hres_fresh).
+  assert (He2 : ext T2) by (apply (ext_before_block body T2 He2'); exact Hbody_fresh).
+  assert (HeT : ext T) by (apply (ext_fold_before si_arg dvh sis T He2); exact Harg_fresh).
+  (* per state iter_arg: links and keys *)
+  assert (Hsis : forall x, In x sis -> In (si_acc x, si_init x) c /\ In (si_init x) (keys T)).
+  { intros x Hx. specialize (Hall0 x Hx). repeat (apply andb_true_iff in Hall0; destruct Hall0 as [Hall0 ?]).
+    apply optval_is_In in Hall0. split; [exact Hall0|exact (Hc _ _ Hall0)]. }
+  assert (HfI : forall x, In x sis -> forall f v, In (f, v) (tlook T (si_init x)) -> In v V).
+  { intros x _ f v Hin. exact (Hf _ f v Hin). }
+  assert (HT2 : tbl_ok T2) by (apply tbl_ok_fold; [exact HT|intros x _; apply st_inter_keys_nodup; apply HT]).
+  assert (Hc_h : cur_in c_h T2).
+  { intros a s Hin. apply Hk2. unfold c_h in Hin. apply in_app_iff in Hin. destruct Hin as [Hin|Hin].
+    - left. apply in_map_iff in Hin. destruct Hin as [y [E Hy]]. inversion E; subst. apply in_map. exact Hy.
+    - right. unfold kept in Hin. apply filter_In in Hin. exact (Hc a s (proj1 Hin)). }
+  assert (Hf2 : facts_in T2 V).
+  { apply facts_in_fold; [exact Hf|]. intros y Hy f v Hin. unfold dvh in Hin. exact (inter_facts _ _ V (HfI y Hy) f v Hin). }
+  destruct (IHb T2 c_h c_e V V' Ewb Htyb HV HT2 Hc_h Hf2 Hbody_fresh Hnd_body He2') as [Hwb [Hc_e Hf_e]].
+  fold T2' in Hc_e, Hf_e.
+  (* lookups of the final table *)
+  assert (Hlk_arg : forall x, In x sis -> tlook Tf (si_arg x) = tlook T2 (si_arg x)).
+  { intros x Hx. apply He2. apply Hk2. left. apply in_map. exact Hx. }
+  assert (Hlk_init : forall x, In x sis -> tlook Tf (si_init x) = tlook T (si_init x)).
+  { intros x Hx. apply HeT. exact (proj2 (Hsis x Hx)). }
+  assert (Hlk_y : forall x, In x sis -> tlook Tf (si_yield x) = tlook T2' (si_yield x)).
+  { intros x Hx. apply He2'. specialize (Hyl x Hx). apply optval_is_In in Hyl. exact (Hc_e _ _ Hyl). }
+  assert (Hlk_res : forall x, In x sis -> tlook Tf (si_res x) = dvr x).
+  { intros x Hx. rewrite He by (apply keys_fold; left; apply in_map; exact Hx).
+    exact (tlook_fold_key si_res dvr sis Hnd_res T2' x Hx). }
+  pose proof (ainfer_loop_clauses ty_of iv lb ub sp its rs body ys T Hty_all HT Hnd_arg) as Hcl.
+  cbv zeta in Hcl. fold sis in Hcl. fold T1' in Hcl. fold dvh in Hcl. fold T2 in Hcl. fold T2' in Hcl.
+  assert (HVV' : forall v, In v V -> In v V') by (intros v Hv; exact (scoped_mono body V V' HV v Hv)).
+  split.
+  - rewrite wf_stmt_for. cbv zeta. fold sis ds kept c_h.
+    match goal with |- (if ?X then _ else _) = _ => assert (HX : X = true) end.
+    { apply andb_true_iff. split; [apply andb_true_iff; split|].
+      - exact (facts_avoid_of c T V ds HeT Hc Hf (disj_spec _ _ Edisj)).
+      - exact Hnacc.
+      - apply forallb_forall. intros x Hx. pose proof (Hall0 x Hx) as Hx0.
+        repeat (apply andb_true_iff in Hx0; destruct Hx0 as [Hx0 ?]).
+        rewrite (Hlk_arg x Hx), (Hlk_init x Hx), (Hlk_y x Hx), (Hlk_res x Hx).
+        destruct (Hcl x Hx) as [C1 [C2 [C3 C4]]].
+        repeat (apply andb_true_iff; split); [exact Hx0|exact C1|exact C2|exact C3|exact C4]. }
+    rewrite HX. rewrite Hwb. rewrite Econd2. reflexivity.
+  - split.
+    + intros a s Hin. apply keys_fold. apply in_app_iff in Hin. destruct Hin as [Hin|Hin].
+      * left. apply in_map_iff in Hin. destruct Hin as [y [E Hy]]. inversion E; subst. apply in_map. exact Hy.
+      * right. apply Hk2'. right. right. unfold kept in Hin. apply filter_In in Hin. exact (Hc a s (proj1 Hin)).
+    + apply facts_in_fold; [exact Hf_e|]. intros y Hy f v Hin. unfold dvr in Hin.
+      apply HVV'. exact (inter_facts _ _ V (HfI y Hy) f v Hin).
+Qed.
+
+Lemma cert_block : forall b, Wb b.
+Proof.
+  apply (block_ind2 Ws Wb).
+  - exact cert_pure.
+  - exact cert_call.
+  - exact cert_setup.
+  - intros a k st fs. apply cert_simple; reflexivity.
+  - intros a k. apply cert_simple; reflexivity.
+  - intros a st. apply cert_simple; reflexivity.
+  - exact cert_for.
+  - exact cert_if.
+  - intros T c c' V V' H _ HV _ Hc Hf _ _ _. simpl in H, HV. inversion H; inversion HV; subst.
+    split; [reflexivity|split; assumption].
+  - intros s b Hs Hb T c c' V V' H Hty HV HT Hc Hf Hfresh Hnd He.
+    cbn [wf_block] in H. destruct (wf_stmt T0 c s) as [c1|] eqn:Ew; [|discriminate].
+    cbn [sty_block] in Hty. apply andb_true_iff in Hty. destruct Hty as [Hty1 Hty2].
+    cbn [scoped_block] in HV. destruct (scoped_stmt V s) as [V1|] eqn:EV; [|discriminate].
+    unfold block_sdefs in Hfresh, Hnd. cbn [flat_map] in Hfresh, Hnd. fold (block_sdefs b) in Hfresh, Hnd.
+    apply nodup_nat_app in Hnd. destruct Hnd as [Hnd1 [Hnd2 Hdis]].
+    cbn [ainfer_block] in He |- *.
+    assert (Hfresh_b : forall x, In x (block_sdefs b) -> ~ In x (keys (ainfer_stmt s T))).
+    { intros x Hx Hin. apply keys_ainfer_stmt in Hin. destruct Hin as [Hin|Hin].
+      - exact (Hdis _ Hin Hx).
+      - apply (Hfresh x); [apply in_app_iff; right; exact Hx|exact Hin]. }
+    assert (He1 : ext (ainfer_stmt s T)) by (apply (ext_before_block b _ He); exact Hfresh_b).
+    destruct (Hs T c c1 V V1 Ew Hty1 EV HT Hc Hf (fun x Hx => Hfresh x (proj2 (in_app_iff _ _ _) (or_introl Hx))) Hnd1 He1)
+      as [Hw1 [Hc1 Hf1]].
+    assert (HT1 : tbl_ok (ainfer_stmt s T)) by (apply (tbl_ok_block [s]); exact HT).
+    destruct (Hb (ainfer_stmt s T) c1 c' V1 V' H Hty2 HV HT1 Hc1 Hf1 Hfresh_b Hnd2 He) as [Hw2 R2].
+    split; [|exact R2]. cbn [wf_block]. rewrite Hw1. exact Hw2.
+Qed.
 End Cert.
+
+(* C07: the model's own table is always certified *)
+Theorem ainfer_certified_all p : cert_side p = true -> ainfer_certified p = true.
+Proof.
+  unfold cert_side, ainfer_certified, wt_prog, sty_prog. intros H.
+  apply andb_true_iff in H. destruct H as [H Hsc]. apply andb_true_iff in H. destruct H as [H Hnd].
+  apply andb_true_iff in H. destruct H as [Hwt Hty].
+  destruct (scoped_block [] (p_body p)) as [V'|] eqn:EV; [|discriminate].
+  unfold wf_prog in Hwt |- *. destruct (wf_block (fun _ => []) [] (p_body p)) as [c'|] eqn:Ew; [|discriminate].
+  destruct (cert_block (ty_lookup (prog_tys p)) (ainfer p) (p_body p) [] [] c' [] V' Ew Hty EV tbl_ok_nil)
+    as [Hw _].
+  - intros a s [].
+  - intros x f v [].
+  - intros x _ [].
+  - exact Hnd.
+  - intros x _. reflexivity.
+  - unfold tfun. rewrite Hw. reflexivity.
+Qed.
